@@ -9,6 +9,7 @@ package sm4
 // sequence of (instruction address, effective addresses of memory operands).
 
 import (
+	"strings"
 	"encoding/hex"
 	"encoding/json"
 	"fmt"
@@ -99,6 +100,17 @@ func verifFill(b []byte, spec string, salt uint64) {
 	}
 }
 
+// verifGhz splits a text content spec "ghz:<stage>:<spec>" (GHASH accumulator crafted to be zero at a stage).
+func verifGhz(spec string) (stage, rest string) {
+	if strings.HasPrefix(spec, "ghz:") {
+		p := strings.SplitN(spec, ":", 3)
+		if len(p) == 3 {
+			return p[1], p[2]
+		}
+	}
+	return "", spec
+}
+
 func TestVerif_C09_Child(t *testing.T) {
 	if os.Getenv("VERIF_C09_CHILD") == "" {
 		t.Skip("only run as the traced child of TestVerif_C09_Trace")
@@ -147,7 +159,11 @@ func TestVerif_C09_Child(t *testing.T) {
 		case "ghash":
 			verifFill(verifC09H[:], e.KeyC, 3)
 			verifFill(verifC09Tag[:], e.AadC, 4)
-			verifFill(verifC09Src[:16*e.N], e.TextC, 5)
+			stage, spec := verifGhz(e.TextC)
+			verifFill(verifC09Src[:16*e.N], spec, 5)
+			if stage != "" {
+				copy(verifC09Src[:16], verifC09Tag[:]) // first block = incoming accumulator: the accumulator is 0 after the first xor
+			}
 			gHashBlocks(&verifC09H[0], &verifC09Tag[0], &verifC09Src[0], e.N)
 		case "copy":
 			verifFill(verifC09Src[:e.N+1], e.TextC, 6)
@@ -155,8 +171,29 @@ func TestVerif_C09_Child(t *testing.T) {
 		case "seal", "open":
 			verifFill(verifC09Nonce[:e.NL], e.NonceC, 7)
 			verifFill(verifC09Aad[:e.AL], e.AadC, 8)
-			verifFill(verifC09Src[:e.PL], e.TextC, 9)
+			stage, spec := verifGhz(e.TextC)
+			verifFill(verifC09Src[:e.PL], spec, 9)
 			nonce, aad := verifC09Nonce[:e.NL], verifC09Aad[:e.AL]
+			if stage != "" && e.PL >= 16 {
+				// plaintext CRAFTED (pure Go, not traced) so that the GHASH accumulator of this very message is zero at a chosen stage
+				ref := sm4ref.New(verifC09Key[:])
+				ct := gcmref.Seal(ref, nonce, verifC09Src[:e.PL], aad, 16)[:e.PL]
+				h := gcmref.HashKey(ref)
+				var c1 []byte
+				switch stage {
+				case "len": // accumulator == length block just before it is xored in: the last multiplication sees zero
+					c1 = gcmref.SolveFirstBlock(h, aad, ct, gcmref.LenBlock(e.AL, e.PL))
+				case "mid": // accumulator zero after the last ciphertext block
+					c1 = gcmref.SolveFirstBlock(h, aad, ct, make([]byte, 16))
+				default: // "blk1": accumulator zero after the first ciphertext block
+					g := gcmref.NewGHashStream(h)
+					g.Blocks(aad)
+					c1 = g.State()
+				}
+				for i := 0; i < 16; i++ {
+					verifC09Src[i] ^= ct[i] ^ c1[i] // pt' = pt xor ct xor c1 = keystream xor c1
+				}
+			}
 			if e.Op == "seal" {
 				sealAsm(&verifC09Enc[0], e.Tag, &verifC09Dst[0], nonce, verifC09Src[:e.PL], aad, &verifC09Temp[0])
 				continue
@@ -177,7 +214,7 @@ func TestVerif_C09_Child(t *testing.T) {
 
 func TestVerif_C09_Trace(t *testing.T) {
 	rec := stats.Get("C09", "asm-traces")
-	rec.Rule("rapid draws groups (routine, lengths[, verdict]): expandKeyAsm; cryptoBlockAsm x1/x2/x4/x8/x16 with enc and dec keys; gHashBlocks count 1..20; copyAsm; sealAsm/openAsm with plaintext/aad lengths from the kernel-combination generator (0..1100), nonce length {12,1,8,16,17,128,130}, tag 12..16, and for openAsm authentic vs forged; each group is executed with 6-8 content variants drawn from {two uniform seeds, all-00, all-FF, AA55, single bit} independently for key, nonce, aad and text, plus keys CRAFTED by running the key schedule backwards so that one round key (index 0,1,2,3,4,15,16,28..31) is 00000000 or ffffffff (and, for forged messages, different positions/values of the wrong tag byte); one group in three of seal/open uses a fixed 16-byte nonce solved in GF(2^128) so that under variant 0's key the block counter wraps inside the message while under the other keys it does not. A ptrace single-stepper records for every executed instruction its address and the effective address of every memory operand (decoded from objdump); stack addresses are taken relative to the entry stack pointer. Oracle: within a group all traces are identical. One case = one traced call; non-trivial: every call in a group with >= 3 variants including an extreme content; distinct by (group, contents).")
+	rec.Rule("rapid draws groups (routine, lengths[, verdict]): expandKeyAsm; cryptoBlockAsm x1/x2/x4/x8/x16 with enc and dec keys; gHashBlocks count 1..20; copyAsm; sealAsm/openAsm with plaintext/aad lengths from the kernel-combination generator (0..1100), nonce length {12,1,8,16,17,128,130}, tag 12..16, and for openAsm authentic vs forged; each group is executed with 6-8 content variants drawn from {two uniform seeds, all-00, all-FF, AA55, single bit} independently for key, nonce, aad and text, plus keys CRAFTED by running the key schedule backwards so that one round key (index 0,1,2,3,4,15,16,28..31) is 00000000 or ffffffff (and, for forged messages, different positions/values of the wrong tag byte); in every seal/open group with at least one full block (and every gHashBlocks group) two or three variants carry a message CRAFTED in GF(2^128) so that the GHASH accumulator is zero at a stage (equal to the length block before it is folded in, zero after the last or the first ciphertext block); one group in three of seal/open uses a fixed 16-byte nonce solved in GF(2^128) so that under variant 0's key the block counter wraps inside the message while under the other keys it does not. A ptrace single-stepper records for every executed instruction its address and the effective address of every memory operand (decoded from objdump); stack addresses are taken relative to the entry stack pointer. Oracle: within a group all traces are identical. One case = one traced call; non-trivial: every call in a group with >= 3 variants including an extreme content; distinct by (group, contents).")
 	t.Cleanup(stats.FlushAll)
 	if !candoAsm {
 		rec.Skipped("CPU lacks GFNI/AVX512/VPCLMULQDQ: the assembly cannot be executed here")
@@ -270,6 +307,20 @@ func TestVerif_C09_Trace(t *testing.T) {
 			}
 			if wrapNonce != "" {
 				e.NonceC = wrapNonce
+			}
+			// messages CRAFTED so that the GHASH accumulator is zero at a stage (before the length block is multiplied in, after the
+			// last / the first ciphertext block): a "skip the multiplication when the operand is zero" shortcut shows only there
+			if ((op == "seal" || op == "open") && base.PL >= 16) || op == "ghash" {
+				switch v {
+				case 1:
+					e.TextC = "ghz:len:" + e.TextC
+				case 2:
+					e.TextC = "ghz:mid:" + e.TextC
+				case 3:
+					if gen.Bool(t, "ghzblk1") {
+						e.TextC = "ghz:blk1:" + e.TextC
+					}
+				}
 			}
 			if base.Forge >= 0 {
 				e.Forge = gen.Uniform(t, "forgepos", 0, 16*3-1) // tag byte (mod tag size) and xor value 1..3
